@@ -26,16 +26,21 @@ type c07Case struct {
 	Side   string // client-ss (server-streaming reply) | client-cs (single-response reply) | server (request body of a bidi method)
 	Body   []byte
 	Abrupt bool   // the body ends with io.ErrUnexpectedEOF instead of a clean io.EOF
+	Chop   int    `json:",omitempty"` // the body is delivered at most Chop bytes per Read (0 = no limit)
 	Origin string `json:",omitempty"` // how the body was produced (for the histogram)
 }
 
 // endReader yields b and then err (io.EOF or io.ErrUnexpectedEOF).
 type endReader struct {
-	r   *bytes.Reader
-	err error
+	r    *bytes.Reader
+	err  error
+	chop int
 }
 
 func (e *endReader) Read(p []byte) (int, error) {
+	if e.chop > 0 && len(p) > e.chop {
+		p = p[:e.chop]
+	}
 	n, err := e.r.Read(p)
 	if err == io.EOF {
 		return n, e.err
@@ -44,8 +49,11 @@ func (e *endReader) Read(p []byte) (int, error) {
 }
 func (e *endReader) Close() error { return nil }
 
-func bodyReader(b []byte, abrupt bool) io.ReadCloser {
+func bodyReader(b []byte, abrupt bool, chop ...int) io.ReadCloser {
 	er := &endReader{r: bytes.NewReader(b), err: io.EOF}
+	if len(chop) > 0 {
+		er.chop = chop[0]
+	}
 	if abrupt {
 		er.err = io.ErrUnexpectedEOF
 	}
@@ -69,7 +77,7 @@ func c07Client(c *c07Case) *c07Obs {
 	ch := &httpgrpc.Channel{BaseURL: baseURL, Transport: rtFunc(func(r *http.Request) (*http.Response, error) {
 		go io.Copy(io.Discard, r.Body)
 		return &http.Response{StatusCode: 200, Status: "200 OK", Proto: "HTTP/1.1", ProtoMajor: 1, ProtoMinor: 1,
-			Header: http.Header{"Content-Type": {httpgrpc.StreamRpcContentType_V1}}, Body: bodyReader(c.Body, c.Abrupt), Request: r}, nil
+			Header: http.Header{"Content-Type": {httpgrpc.StreamRpcContentType_V1}}, Body: bodyReader(c.Body, c.Abrupt, c.Chop), Request: r}, nil
 	})}
 	kind := kServerStream
 	if c.Side == "client-cs" {
@@ -127,7 +135,7 @@ func c07Server(c *c07Case) *c07Obs {
 	}}
 	srv := httpgrpc.NewServer()
 	srv.RegisterService(newServiceDesc(), svc)
-	req := httptest.NewRequest("POST", "http://verif.test"+mBidi, bodyReader(c.Body, c.Abrupt))
+	req := httptest.NewRequest("POST", "http://verif.test"+mBidi, bodyReader(c.Body, c.Abrupt, c.Chop))
 	req.Header.Set("Content-Type", httpgrpc.StreamRpcContentType_V1)
 	req.ContentLength = -1
 	w := httptest.NewRecorder()
@@ -151,6 +159,9 @@ const c07AllocSlack = 6 << 20
 func propC07(c c07Case) *Outcome {
 	o := &Outcome{}
 	o.class("side=%s", c.Side)
+	if c.Chop > 0 {
+		o.class("chopped-reads")
+	}
 	if c.Origin != "" {
 		o.class("origin=%s", c.Origin)
 	}
@@ -313,6 +324,7 @@ func genC07Body(t *rapid.T, forServer bool) ([]byte, string) {
 
 func genC07(t *rapid.T) c07Case {
 	c := c07Case{Side: rapid.SampledFrom([]string{"client-ss", "client-ss", "client-cs", "server", "server"}).Draw(t, "side"), Abrupt: rapid.IntRange(0, 3).Draw(t, "abrupt") == 0}
+	c.Chop = rapid.SampledFrom([]int{0, 0, 0, 1, 2, 3, 5, 7}).Draw(t, "chop")
 	c.Body, c.Origin = genC07Body(t, c.Side == "server")
 	return c
 }
@@ -337,6 +349,9 @@ func c07Recorded() []c07Case {
 				for _, abrupt := range []bool{false, true} {
 					cs = append(cs, c07Case{Side: "client-ss", Body: body[:k], Abrupt: abrupt, Origin: "recorded-reply-cut"})
 				}
+			}
+			for _, chop := range []int{1, 2, 3, 5} {
+				cs = append(cs, c07Case{Side: "client-ss", Body: body, Chop: chop, Origin: "recorded-reply-chopped"})
 			}
 		}
 	}
@@ -364,7 +379,7 @@ func recordReplyBody(s *Script) []byte {
 func init() { registerReplay("C07", propC07) }
 
 const c07Rule = "bodies fed to the client stream decoder (server-streaming and single-response) through a replaying RoundTripper and to the server stream decoder through httptest: rapid byte strings, hostile 4-byte prefixes (0, -1, MinInt32, MaxInt32, limit, limit+-1), valid encodings of generated message lists + trailer mutated by truncation / bit flip / spliced hostile prefix / trailing garbage / missing trailer, " +
-	"and every truncation offset of 8 recorded real replies, each ending cleanly (io.EOF) and abruptly (io.ErrUnexpectedEOF); oracle = independent reference decoder (delivered messages are an intact prefix of the reference frames; success iff the reference sees a complete OK reply; reference error => SUT error), no panic, TotalAlloc delta <= 100 MiB limit + 8*len(body) + 6 MiB; " +
+	"and every truncation offset of 8 recorded real replies, each ending cleanly (io.EOF) and abruptly (io.ErrUnexpectedEOF), delivered whole or at most 1..7 bytes per Read; oracle = independent reference decoder (delivered messages are an intact prefix of the reference frames; success iff the reference sees a complete OK reply; reference error => SUT error), no panic, TotalAlloc delta <= 100 MiB limit + 8*len(body) + 6 MiB; " +
 	"non-trivial = body with >=1 complete frame that is not a complete valid OK stream, or an oversized prefix, or a cut inside a frame; distinct by case hash"
 
 func TestC07(t *testing.T) {
@@ -385,6 +400,8 @@ func c07FuzzSeeds(f *testing.F) {
 	m1 := &pb.Message{Payload: []byte("abc"), Count: 3}
 	ok := encodeStream([]proto.Message{m1, &pb.Message{}}, &httpgrpc.HttpTrailer{Code: 0, Message: "OK"})
 	f.Add(ok, byte(0))
+	f.Add(ok, byte(1<<2))
+	f.Add(ok, byte(3<<2))
 	f.Add(ok[:len(ok)-1], byte(0))
 	f.Add(ok[:len(ok)-1], byte(1))
 	f.Add(encodeStream([]proto.Message{m1}, nil), byte(0))
@@ -395,7 +412,7 @@ func c07FuzzSeeds(f *testing.F) {
 func FuzzClientBody(f *testing.F) {
 	c07FuzzSeeds(f)
 	f.Fuzz(func(t *testing.T, body []byte, flags byte) {
-		c := c07Case{Side: "client-ss", Body: body, Abrupt: flags&1 != 0, Origin: "native-fuzz"}
+		c := c07Case{Side: "client-ss", Body: body, Abrupt: flags&1 != 0, Chop: int(flags>>2) & 7, Origin: "native-fuzz"}
 		if flags&2 != 0 {
 			c.Side = "client-cs"
 		}
@@ -409,7 +426,7 @@ func FuzzClientBody(f *testing.F) {
 func FuzzServerBody(f *testing.F) {
 	c07FuzzSeeds(f)
 	f.Fuzz(func(t *testing.T, body []byte, flags byte) {
-		c := c07Case{Side: "server", Body: body, Abrupt: flags&1 != 0, Origin: "native-fuzz"}
+		c := c07Case{Side: "server", Body: body, Abrupt: flags&1 != 0, Chop: int(flags>>2) & 7, Origin: "native-fuzz"}
 		if o := propC07(c); o.Fail != "" {
 			t.Fatalf("C07: %s", o.Fail)
 		}
